@@ -238,6 +238,41 @@ func c03Drive(c *Ctx, rec spg.CharRecipe, osRuns int) {
 			map[string]interface{}{"recipe": descChar(rec)})
 		return
 	}
+	// a first candidate that misses a requirement, then a valid one: whatever is returned must be valid
+	if len(sem.ReqLive) > 0 && L >= 1 {
+		idxOf := map[string]int{}
+		for i, ch := range sem.Alphabet {
+			idxOf[ch] = i
+		}
+		for try := 0; try < 6; try++ {
+			// candidates made of one character (or two) repeated miss any requirement they are not in
+			ch := sem.Alphabet[c.R.Intn(a)]
+			bad := make([]uint32, L)
+			chars := make([]string, L)
+			for i := range bad {
+				bad[i] = uint32(idxOf[ch])
+				chars[i] = ch
+			}
+			if sem.MeetsReq(chars) {
+				continue
+			}
+			good, ok := forcedScript(c.R, sem, c.R.Intn(L), c.R.Intn(a))
+			if !ok {
+				break
+			}
+			script := append(append(append([]uint32{}, bad...), bad...), good...)
+			g := runGen(rec, &tape.Tape{Script: script})
+			c.Exec(1)
+			c.Count("retry_scripts", 1)
+			if g.Pw != nil {
+				got++
+				if !c03CheckPw(c, rec, sem, g.Pw, map[string]interface{}{"script": "two candidates of one repeated character, then a valid candidate", "repeated": ch}) {
+					return
+				}
+			}
+			break
+		}
+	}
 	for k := 0; k < osRuns; k++ {
 		g := runGen(rec, nil)
 		c.Exec(1)
@@ -342,6 +377,17 @@ func c03Overlap(c *Ctx) {
 			rec.Allow = spg.Uppers
 			rec.RequireSets = []string{"0O1Il5S" + subsetOf(c.R, oracle.Chars("234abc"), 0, 3)}
 			rec.Exclude = spg.Ambiguous
+		}
+		if k%4 == 3 { // requirements that are met almost surely: success probability indistinguishable from 1 in float32
+			switch c.R.Intn(3) {
+			case 0:
+				rec = spg.CharRecipe{Length: []int{70, 100, 300}[c.R.Intn(3)], Allow: spg.Letters, Require: spg.Digits}
+			case 1:
+				rec = spg.CharRecipe{Length: []int{21, 30, 64}[c.R.Intn(3)], AllowChars: "a", RequireSets: []string{"b"}}
+			default:
+				all := "abcdefghijklmnopqrstuvwxyzABCDEFGHIJKLMNOPQRSTUVWXYZ0123456789"
+				rec = spg.CharRecipe{Length: 6, AllowChars: "#", RequireSets: []string{all}}
+			}
 		}
 		if strings.TrimSpace(rec.AllowChars) == "" && rec.Allow == 0 && len(rec.RequireSets) == 0 && rec.Require == 0 {
 			rec.AllowChars = "ab"
